@@ -915,13 +915,88 @@ fn ix_allpairs(w: &W) -> Verdict {
     Ok(())
 }
 
+/// Every partition of one tiny FASTA file into read() chunks, for one fetched interval: the
+/// quantifier "forall fragmentations of read() results" decided exhaustively for files of up to
+/// 14 (thorough: 18) bytes.
+fn ix_partitions(w: &W) -> Verdict {
+    let limit = if crate::world::thorough() { 18 } else { 14 };
+    let mut f = gen_file(w, Scale::Small, 2, 6);
+    // shrink to the limit: keep only the first record, then give up
+    if f.bytes.len() > limit {
+        return Ok(());
+    }
+    w.probe("workload_nonempty");
+    w.probe("all_partitions_sweep");
+    w.fired("all_read_partitions");
+    let r = w.draw(f.recs.len() as u64) as usize;
+    let len = f.recs[r].seq.len() as u64;
+    let s0 = w.draw(len + 1);
+    let e0 = s0 + w.draw(len - s0 + 1);
+    let use_iter = w.chance(1, 2);
+    let by_name = w.chance(1, 2);
+    // a second, adjacent request on the same reader (consecutive fetches are independent)
+    let e1 = e0 + w.draw(len - e0 + 1);
+    let n = f.bytes.len();
+    if w.keep_trace {
+        w.note("file", f.json());
+        w.note("sweep", json!(format!("all {} partitions of {} bytes; fetch [{}, {}) then [{}, {}) of record {}; {}", 1u64 << (n - 1), n, s0, e0, e0, e1, r, if use_iter { "read_iter" } else { "read" })));
+    }
+    let data = Rc::new(std::mem::take(&mut f.bytes));
+    let want0 = f.recs[r].seq[s0 as usize..e0 as usize].to_vec();
+    let want1 = f.recs[r].seq[e0 as usize..e1 as usize].to_vec();
+    let ix0 = match Index::new(&f.fai[..]) {
+        Ok(ix) => ix,
+        Err(e) => return fail("C12.f-index", format!("Index::new rejected a well-formed .fai: {}", e)),
+    };
+    for mask in 0..(1u64 << (n - 1)) {
+        let src = SimSeekRead::new(w, data.clone(), IoCfg { chunk: Chunk::Mask(mask), eintr_pm: 0, eio_pm: 0 }, "fasta");
+        let mut reader = IndexedReader::with_index(src, ix0.clone());
+        w.set_budget(2000);
+        for (s, e, want) in [(s0, e0, &want0), (e0, e1, &want1)] {
+            w.clause("C12.a-slice");
+            let fr = if by_name { reader.fetch(&f.recs[r].name, s, e) } else { reader.fetch_by_rid(r, s, e) };
+            if let Err(er) = fr {
+                return fail("C12.c-must-succeed", format!("partition mask {:#x}: fetch [{}, {}) failed: {}", mask, s, e, er));
+            }
+            let mut got = Vec::new();
+            if use_iter {
+                match reader.read_iter() {
+                    Err(er) => return fail("C12.c-must-succeed", format!("partition mask {:#x}: read_iter() for [{}, {}) failed: {}", mask, s, e, er)),
+                    Ok(it) => {
+                        for (k, item) in it.enumerate() {
+                            match item {
+                                Ok(b) => got.push(b),
+                                Err(er) => return fail("C12.c-must-succeed", format!("partition mask {:#x}: iterator for [{}, {}) yielded an error on an intact file: {}", mask, s, e, er)),
+                            }
+                            if k as u64 > e - s + 8 {
+                                return fail("C12.b-iter", format!("partition mask {:#x}: iterator for [{}, {}) does not end", mask, s, e));
+                            }
+                        }
+                    }
+                }
+            } else if let Err(er) = reader.read(&mut got) {
+                return fail("C12.c-must-succeed", format!("partition mask {:#x}: read() for [{}, {}) failed on an intact file: {}", mask, s, e, er));
+            }
+            if got != **want {
+                return fail(
+                    if use_iter { "C12.b-iter" } else { "C12.a-slice" },
+                    format!("read partition mask {:#x} (bit i = a read ends at file offset i+1) of {:?}: [{}, {}) of record {} gave {:?}, model says {:?}", mask, show(&data), s, e, r, show(&got), show(want)),
+                );
+            }
+        }
+        w.set_budget(u64::MAX);
+    }
+    Ok(())
+}
+
 pub fn property() -> Property {
     Property {
         id: "C12",
         scenarios: vec![
-            Scenario { name: "ix-history", weight: 8, run: ix_history },
-            Scenario { name: "ix-clean", weight: 2, run: ix_clean },
-            Scenario { name: "ix-allpairs", weight: 1, run: ix_allpairs },
+            Scenario { name: "ix-history", weight: 32, run: ix_history },
+            Scenario { name: "ix-clean", weight: 8, run: ix_clean },
+            Scenario { name: "ix-allpairs", weight: 4, run: ix_allpairs },
+            Scenario { name: "ix-partitions", weight: 1, run: ix_partitions },
         ],
         panic_clause: "C12.g-nopanic",
         livelock_clause: "C12.g-livelock",
@@ -940,7 +1015,7 @@ pub fn property() -> Property {
             "start_on_line_boundary", "stop_on_line_boundary", "empty_interval_read", "iterator_dropped_half_way", "operation_after_dropped_iterator",
             "read_after_failed_read", "exact_read_after_failed_operation", "operation_failed_by_injected_fault", "cut_inside_requested_range",
             "cut_after_requested_range", "cut_inside_terminator_after_range", "short_file_reported_as_error", "fetch_rejected_unknown_target",
-            "file_without_final_terminator", "empty_record", "fai_rows_not_in_file_order", "magic_size_run", "large_regime", "many_records_regime", "huge_regime", "allpairs_sweep",
+            "file_without_final_terminator", "empty_record", "fai_rows_not_in_file_order", "magic_size_run", "large_regime", "many_records_regime", "huge_regime", "allpairs_sweep", "all_partitions_sweep",
         ],
         quick_runs: 300_000,
         thorough_runs: 20_000_000,
